@@ -4,7 +4,9 @@
 (* supplies the seeded data for the class and runs the real DirectSamplingContour.     *)
 EXTENDS Integers, TLC, Json
 CONSTANTS Steps
-SampleClasses == {"model", "model_default_n", "stub_default_n", "gauss", "ties", "heavy", "ring"}
+SampleClasses == {"model", "model_default_n", "stub_default_n", "gauss", "ties", "heavy", "ring",
+                  "int64", "int32", "float32",          \* supplied sample that is not float64
+                  "pareto02", "t025", "outlier"}        \* very heavy tails / one point at 1e15..1e17
 AlphaClasses == {"tiny", "small", "mid", "large"}
 VARIABLE g
 Init == g \in [deg_step : Steps, cls : SampleClasses, alpha : AlphaClasses]
